@@ -40,6 +40,10 @@ META = {'design_ref': 'DESIGN.md section 7 / C18',
  'level_text': 'Coq theorems for every state: C18_timeout_exact / C18_timeout_sound (a service call fails exactly the operations whose record is due, with '
                'AckTimeout, and nothing else), C18_deadline_armed / C18_deadline_not_armed (the record is armed with now + T when the packet is completely '
                'written, only for operations with a timeout), C18_retry_count / C18_retry_limit / C18_retry_sound / C18_no_limit (interruption counting and '
-               'failure exactly above the limit). Trace-level exactness across whole histories is the monitors mon_c18_timeout / mon_c18_retry — partial.',
+               'failure exactly above the limit). Trace-level exactness across whole histories is the monitors mon_c18_timeout / mon_c18_retry — partial. '
+               'Monitors on the implementation trace: mon_c18_timeout (an AckTimeout completion only for an operation with a timeout, never before the '
+               'deadline of one of its completely written packets), mon_c18_late (after every successful service call at time t no operation remains '
+               'incomplete whose packet was completely written at w with w + T <= t: not later than the first service at or after the deadline), '
+               'mon_c18_retry.',
  'technique': 'machine-checked proof in Coq over the engine model + lock-step correspondence of the extracted model with the implementation + extracted '
               'monitors on the implementation trace'}
